@@ -1,19 +1,29 @@
-(* Evaluation of the Rcb / Rib correspondence cases (C03): model vs
-   implementation (exact ids) and the certified checker [check_bisect] on the
-   implementation's ids.  Depends on the model only. *)
+(* Evaluation of the Rcb / Rib correspondence cases (C03, shared with C04):
+   model vs implementation (exact ids) and the certified checkers on the
+   implementation's ids.  Depends on the model and the generated constants only. *)
 From Coupe Require Import Lib.Prelude Lib.SFloat Lib.Report Model.Rcb Gen.RcbGen.
 From Coq Require Import Floats.SpecFloat.
 Open Scope Z_scope.
 
-(* r_pts: f64 bit patterns, D per point (for Rib: the rotated points the
+(* an f64 coordinate crosses the boundary as its bit pattern, or -- when it is
+   m * 2^e with a small odd m (grid values; cheaper to parse) -- as (m, e) *)
+Inductive coordq := Cb (bits : N) | Cz (m e : Z).
+Definition coord_of (q : coordq) : spec_float :=
+  match q with
+  | Cb b => f64_of_bits b
+  | Cz m e => binary_normalize 53 1024 m e false
+  end.
+
+(* r_pts: D coordinates per point (for Rib: the rotated points the
    implementation handed to rcb, as recorded by the hook) *)
-Record caseR := mkR { r_rib : bool; r_D : nat; r_k : nat; r_tol : N; r_pts : list (list N);
+Record caseR := mkR { r_rib : bool; r_D : nat; r_k : nat; r_tol : N; r_pts : list (list coordq);
                       r_ws : list Z; r_plen : nat; r_impl : impl_res }.
 
-Definition pts_of (c : caseR) : list (list spec_float) := map (map (fun b => f64_of_bits b)) (r_pts c).
+Definition pts_of (c : caseR) : list (list spec_float) := map (map coord_of) (r_pts c).
 Definition p0_of (c : caseR) : list N := repeat 18446744073709551615%N (r_plen c).
 
-(* the cut search makes at most ~300 iterations on binary32 (Proofs/RcbProofs.v: search_fuel) *)
+(* the cut search needs < 300 iterations on binary32 (termination:
+   Properties/C03.v, C03_search_terminates) *)
 Definition run_fuel : nat := 2000.
 
 (* the variant of the cut search the current source implements (translator) *)
@@ -22,16 +32,8 @@ Definition rcb_variant : variant := mkvariant rcb_old_rules rcb_by_coord rcb_pro
 Definition model_of (c : caseR) : res (list N) :=
   rcb rcb_variant run_fuel seq_sched (r_D c) (r_k c) (f64_of_bits (r_tol c)) (pts_of c) (r_ws c) (p0_of c).
 
-(* usage contract: matching lengths, D coordinates per point, finite
-   coordinates whose binary32 image is finite too, non-negative weights,
-   iter_count <= 62 *)
 Definition wellformed (c : caseR) : bool :=
   Nat.eqb (length (r_pts c)) (r_plen c) && Nat.eqb (length (r_ws c)) (r_plen c).
-Definition in_contract (c : caseR) : bool :=
-  wellformed c
-  && forallb (fun p => Nat.eqb (length p) (r_D c)
-                       && forallb (fun x => is_finite x && is_finite (f64_to_f32 x)) p) (pts_of c)
-  && forallb (fun w => 0 <=? w) (r_ws c) && Nat.leb (r_k c) 62.
 
 (* malformed stream (C20 clause): the mismatch is reported, nothing else *)
 Definition malformed_ok (c : caseR) : bool :=
@@ -46,22 +48,53 @@ Definition malformed_ok (c : caseR) : bool :=
 Definition cls_of (c : caseR) : N :=
   match r_impl c with IOk _ => 0 | IErr _ _ _ => 1 | IPanic => 2 | IHang => 3 end%N.
 
-(* the decidable premise of C03_rcb_total / C04_rcb_split_balanced: inside the
-   contract the root box (f64 min/max, then `as f32`) has finite canonical
-   bounds that enclose the binary32 coordinates *)
-Definition premise_ok (c : caseR) : bool :=
-  if in_contract c && negb (Nat.eqb (r_plen c) 0) then box_ok32 (r_D c) (pts_of c) (r_ws c) else true.
+(* items from already converted coordinates (= mk_items on the f64 points) *)
+Fixpoint items32 (i : N) (p32 : list (list spec_float)) (ws : list Z) : list item32 :=
+  match p32, ws with
+  | p :: pt, w :: wt' => mkitem i p w :: items32 (N.succ i) pt wt'
+  | _, _ => []
+  end.
 
-Definition eval03 (c : caseR) : verdict :=
-  let corr := res_matches (model_of c) (r_impl c) && premise_ok c in
-  let prop :=
-    if in_contract c then
-      match r_impl c with
-      | IOk p => check_bisect32 (r_D c) (r_k c) (pts_of c) p
-      | _ => false
+(* One evaluation per case; the f64 values and their binary32 images are
+   computed once.
+   Usage contract: matching lengths, D coordinates per point, finite f64
+   coordinates, non-negative weights, iter_count <= 62.  [wide]: the binary32
+   image of a coordinate may be infinite (|x| > f32::MAX): the code at HEAD
+   terminates and returns a bisection tree on such inputs (C03), but every
+   point of an axis that holds an infinite value may stay on one side, so the
+   balance statement (C04) and the decidable premise of the theorems
+   (box_ok32: the root box has finite canonical bounds that enclose the
+   binary32 coordinates) are evaluated on [narrow] only, where the binary32
+   images are finite too.  [balance]: also judge every bisection (C04). *)
+Definition eval_rcb (balance : bool) (c : caseR) : verdict :=
+  let D := r_D c in let k := r_k c in let ws := r_ws c in
+  let p64 := pts_of c in
+  let p32 := map (map f64_to_f32) p64 in
+  let tol := f64_of_bits (r_tol c) in
+  let model := rcb rcb_variant run_fuel seq_sched D k tol p64 ws (p0_of c) in
+  let wf := wellformed c in
+  let wide := wf && forallb (fun p => Nat.eqb (length p) D && forallb is_finite p) p64
+              && forallb (fun w => 0 <=? w) ws && Nat.leb k 62 in
+  let narrow := wide && forallb (fun p => forallb is_finite p) p32 in
+  let premise :=
+    if narrow && negb (Nat.eqb (r_plen c) 0) then
+      match bbox32 D 0 p64 with
+      | Some bb => box_ok_from 0 bb (items32 0 p32 ws)
+      | None => false
       end
-    else if wellformed c then true
+    else true in
+  let corr := res_matches model (r_impl c) && premise in
+  let prop :=
+    if wide then
+      match r_impl c with
+      | IOk p =>
+        if balance && narrow then check_balance spec_float flt (tol_test tol) f32_valid D k p32 ws p
+        else check_bisect spec_float flt f32_valid D k p32 p
+      | _ => false                       (* error, panic or hang inside the contract *)
+      end
+    else if wf then true
     else malformed_ok c in
   {| corr_ok := corr; prop_ok := prop; cls := cls_of c |}.
 
+Definition eval03 := eval_rcb false.
 Definition run03 (cs : list caseR) := report (map eval03 cs).
